@@ -86,6 +86,9 @@ class _Purity(DefaultVisitor):
             case ForStmt(iterable=e):
                 # the loop target names the elements of the iterable
                 pass
+            case ListComp():
+                # a comprehension target names the elements of its iterables
+                e = TupleExpr(list(d.site.iterables), None)
             case _:
                 return False
         sources = [e]
@@ -99,13 +102,22 @@ class _Purity(DefaultVisitor):
                     sources.append(e.value)
                 case IfExpr():
                     sources += [e.ift, e.iff]
-                case TupleExpr():
+                case TupleExpr() | ListExpr():
                     sources += list(e.elts)
                 case Call():
                     # may hand back (part of) one of its arguments
                     return True
+                case ListSlice():
+                    # a new list of the same elements
+                    sources.append(e.value)
+                case ListComp():
+                    sources += [e.elt, *e.iterables]
+                case Enumerate():
+                    sources.append(e.arg)
+                case Zip():
+                    sources += list(e.args)
                 case _:
-                    # a literal, a comprehension, `empty`, a slice, ...: a new list
+                    # a number, `empty`, `range`, ...: nothing of the caller's
                     pass
         return False
 
